@@ -21,7 +21,7 @@ from tracelib import *
 PROP = "C04"
 LEVEL = "exploration"
 FLAVOUR = "plain"
-TIERS = {"quick": (2200, 170), "thorough": (45000, 3300)}
+TIERS = {"quick": (1800, 170), "thorough": (40000, 3300)}
 RULE_TEXT = ("one run = one generated null-datamodel chart (<= 10 states, parallel/history/final, internal/targetless/multi-target/eventless transitions, "
              "raise/send/cancel/log/if content) x one timed history; the interpreter runs in the simulator, the emitted C is compiled with ASan+UBSan and hosted; "
              "compared: events dequeued, executed content (log, raise, send, cancel, done events) and configurations; non-trivial = at least 2 events and 3 "
